@@ -1,7 +1,6 @@
 import CacheVerif.Model.ConcCache
 import CacheVerif.Props.C06
 import CacheVerif.Props.C08
-import CacheVerif.Expect.Ctor
 import CacheVerif.Proofs.DeepSource
 import CacheVerif.Proofs.DeepJanitor
 /-!
